@@ -1188,6 +1188,24 @@ fn catalogue_inner(prop: &str, t: Tier, seed: u64, out: &mut Vec<Entry>) {
                 let c2 = c.clone();
                 add(format!("brakedown/nv{}", nv), format!("{} variables", nv), Box::new(move || c19::lincode::<Brakedown>(&c2, (1000 * 61, 1521 * 1000), 128, (1521, 1000), true)));
             }
+            // a low security parameter brings small sizes into the regime the shape law speaks about
+            // (required column openings below the codeword length)
+            for n in if quick { vec![32usize, 64, 100] } else { vec![32usize, 64, 100, 128, 200, 256] } {
+                let mut sz = Size::uni(300, 300, 0);
+                sz.ligero = (20, 4, true);
+                let mut c = Cfg::new(sz, vec![PolySpec::new(n).conc()]);
+                c.seed = seed;
+                let c2 = c.clone();
+                add(format!("ligero-uni-sec20/n{}", n), format!("{} coefficients, lambda 20, rho_inv 4", n), Box::new(move || c19::lincode::<LigeroUni>(&c2, (3, 4), 20, (4, 1), true)));
+            }
+            for nv in if quick { vec![6usize, 7] } else { vec![6usize, 7, 8] } {
+                let mut sz = Size::mv(nv, 1, 0);
+                sz.ligero = (20, 2, true);
+                let mut c = Cfg::new(sz, vec![PolySpec::new(1).conc()]);
+                c.seed = seed;
+                let c2 = c.clone();
+                add(format!("ligero-ml-sec20/nv{}", nv), format!("{} variables, lambda 20, rho_inv 2", nv), Box::new(move || c19::lincode::<LigeroMl>(&c2, (1, 2), 20, (2, 1), true)));
+            }
             for n in if quick { vec![2usize, 4, 16, 33] } else { vec![2usize, 3, 4, 8, 16, 33, 64, 128, 257] } {
                 let mut sz = Size::uni(300, 300, 0);
                 sz.ligero = (128, 4, true);
